@@ -13,7 +13,7 @@ pub struct Cfg {
     pub scale: usize,
 }
 const FILL: u8 = 0x6B;
-fn probe_str(t: &dyn TypeOps, sl: &[u8]) -> String {
+pub fn probe_str(t: &dyn TypeOps, sl: &[u8]) -> String {
     match guarded(|| t.probe(sl)) {
         None => "PANIC".into(),
         Some(p) => match p.res {
@@ -74,7 +74,7 @@ fn abs_items(d: &mut D) -> &mut Vec<D> {
 }
 /// apply `op` with the outcome `ret` the implementation reported to the abstract value; returns the value the abstract
 /// machine says the call returns (`None` when it has no opinion)
-fn abs_apply(sh: &Shape, d: &mut D, op: &Op, ret: &str, cap: Option<usize>) -> Option<String> {
+pub fn abs_apply(sh: &Shape, d: &mut D, op: &Op, ret: &str, cap: Option<usize>) -> Option<String> {
     let rv = |x: &[u8]| -> String { match sh { Shape::Vec(e, _) => render_sized(e, x).replace(' ', "_"), _ => hex(x) } };
     match op {
         Op::Push(x) => { let v = abs_elems(d); if cap.map(|c| v.len() < c).unwrap_or(ret == "ok") { v.push(x.clone()); Some("ok".into()) } else { Some("full".into()) } }
@@ -104,7 +104,7 @@ fn abs_apply(sh: &Shape, d: &mut D, op: &Op, ret: &str, cap: Option<usize>) -> O
     }
 }
 /// capacity of the top-level container as the walk reports it (`V<cap>[` / `S<cap>:`)
-fn top_cap(probe: &str) -> Option<usize> {
+pub fn top_cap(probe: &str) -> Option<usize> {
     let w = probe.splitn(4, ':').nth(3)?;
     let c = w.chars().next()?;
     if c != 'V' && c != 'S' { return None; }
@@ -121,7 +121,7 @@ fn terminate_chain(state: &[u8], l: &crate::shape::LenS, os: usize, slack: usize
     crate::shape::terminate_chain(state, l, os, slack, v, z)
 }
 
-fn gen_op(sh: &Shape, cur: &D, rng: &mut Rng, depth: usize) -> Op {
+pub fn gen_op(sh: &Shape, cur: &D, rng: &mut Rng, depth: usize) -> Op {
     match sh {
         Shape::Vec(e, _) => {
             let n = match cur { D::VecIter(v) | D::VecArr(v) => v.len(), _ => 0 };
